@@ -26,7 +26,7 @@ type c18 struct{}
 func (c18) ID() string    { return "C18" }
 func (c18) Level() string { return "exploration" }
 func (c18) Rule() string {
-	return "cases = problems after parse-time simplification x printer: CNF problems (T2 incl. dirty clauses and parse-time Unsat, S3 with <=3 clauses, units and simplified-away clauses) through Problem.CNF, Problem.PBString (also printed after a solver built from the Problem has run), explain.Problem.CNF and Solver.PBString (fresh, after a Solve, after an AppendClause); cardinality/PB sets (C02 singles, single+unit, card pairs, decreasing-coefficient family) with and without cost function (every cost function over <=2 variables, weights 0..2, and negative weights through OPB) through Problem.PBString, Clause.PBString and Solver.PBString. Oracle: the text is accepted by a reference reader of its format (header counts, terminators, min: syntax) and by the repository's parser; the re-parsed problem, read structurally, has the same models over the same variables and the same cost for every model as the printed problem read structurally (for Solver.PBString: as the truth table of what the solver holds). Non-trivial = parse-time simplification changed the problem (units or removed constraints) or a cost function is present."
+	return "cases = problems after parse-time simplification x printer: CNF problems (T2 incl. dirty clauses and parse-time Unsat, S3 with <=3 clauses, units and simplified-away clauses) through Problem.CNF, Problem.PBString (also printed after a solver built from the Problem has run), explain.Problem.CNF and Solver.PBString (fresh, after a Solve, after an AppendClause); cardinality/PB sets (C02 singles, single+unit, card pairs, decreasing-coefficient family) with and without cost function (every cost function over <=2 variables, weights 0..2, and negative weights through OPB; MO, a seeded catalogue of weighted PB problems with a weighted cost function over 8..12 variables and all one-edit neighbours) through Problem.PBString, Clause.PBString and Solver.PBString. Oracle: the text is accepted by a reference reader of its format (header counts, terminators, min: syntax) and by the repository's parser; the re-parsed problem, read structurally, has the same models over the same variables and the same cost for every model as the printed problem read structurally (for Solver.PBString: as the truth table of what the solver holds). Non-trivial = parse-time simplification changed the problem (units or removed constraints) or a cost function is present."
 }
 func (c18) Assumptions() []string {
 	return []string{"reference readers implement DIMACS CNF and OPB (linear, >= and =, min:) as published", "truth-table reference is correct"}
@@ -112,6 +112,20 @@ func (c18) Enumerate(tier string, seed int64, yield func(string, core.Case) bool
 		return true
 	}) {
 		return
+	}
+	// MO: weighted PB problems with a weighted cost function over 8..12 variables (seeded catalogue + neighbours)
+	{
+		nseeds := 200
+		if thorough {
+			nseeds = 600
+		}
+		mi := 0
+		if !enumOptCatalogue(seed, nseeds, func(name string, p Prob) bool {
+			mi++
+			return yield(name, PrintCase{P: p, Via: pbVias[mi%len(pbVias)]})
+		}) {
+			return
+		}
 	}
 	// negative cost weights reach a Problem through the OPB front end
 	pa := pbAlphabet(3, 2, 2, 1, 2, []string{"ge", "eq"}, false)
